@@ -107,7 +107,7 @@ class PyFileSearcher(AbstractSearcher):
                 continue
 
             try:
-                pyTime = os.stat(f)[8]
+                pyTime = os.stat(f).st_mtime
 
             except OSError:
                 raise error.PySmiSearcherError('failure opening compiled file %s: %s' % (f, sys.exc_info()[1]),
